@@ -21,10 +21,13 @@ import (
 	"bytes"
 	"encoding/json"
 	"fmt"
+	"io"
 	"math/rand/v2"
+	"net"
 	"runtime/pprof"
 	"strings"
 	"sync"
+	"sync/atomic"
 	"time"
 
 	"github.com/vmware/go-ipfix/pkg/entities"
@@ -50,7 +53,7 @@ func main() {
 		}
 	}
 	groups := c.Pick(1, 40)
-	kinds := []string{"refresh", "refresh", "refresh", "jsonrefresh", "peerclose", "peerclose", "close", "close"}
+	kinds := []string{"refresh", "refresh", "refresh", "jsonrefresh", "peerclose", "backpressure", "close", "close"}
 	from, to := c.Range(groups * len(kinds))
 	for g := from / len(kinds); g*len(kinds) < to; g++ {
 		var wg sync.WaitGroup
@@ -76,6 +79,9 @@ func main() {
 				case "jsonrefresh":
 					c.Eval(1)
 					jsonRefreshSession(c, k, r)
+				case "backpressure":
+					c.Eval(1)
+					backpressureSession(c, k, r)
 				case "peerclose":
 					c.Eval(1)
 					peerCloseSession(c, k, r)
@@ -410,6 +416,133 @@ func jsonRefreshSession(c *hx.Ctx, k int, r *rand.Rand) {
 	c.Add("json_datagrams", int64(len(dgs)))
 	c.Nontrivial(hx.H64("json", k, sent))
 	c.Sample(6, map[string]any{"kind": "jsonrefresh", "records_sent_as_json": sent, "datagrams_captured": len(dgs), "refresh_ticks_covered": 2})
+}
+
+// backpressureSession: a TCP collector that accepts but does not read for a while, so that the
+// application's SendSet blocks in Write while the connection checker (interval 20 ms) keeps
+// probing the same connection. The probe must not disturb the blocked send: every SendSet must
+// succeed and the stream, once drained, must be exactly the application's messages.
+func backpressureSession(c *hx.Ctx, k int, r *rand.Rand) {
+	ln, err := net.Listen("tcp", "127.0.0.1:0")
+	if err != nil {
+		c.Inconclusive("listen: " + err.Error())
+		return
+	}
+	defer ln.Close()
+	resume := make(chan struct{})
+	type capture struct {
+		data []byte
+		err  error
+	}
+	capCh := make(chan capture, 1)
+	go func() {
+		conn, err := ln.Accept()
+		if err != nil {
+			capCh <- capture{nil, err}
+			return
+		}
+		defer conn.Close()
+		<-resume
+		b, err := io.ReadAll(conn)
+		capCh <- capture{b, err}
+	}()
+	domain := r.Uint32()
+	ep, err := exporter.InitExportingProcess(exporter.ExporterInput{CollectorAddress: ln.Addr().String(), CollectorProtocol: "tcp", ObservationDomainID: domain, CheckConnInterval: 20 * time.Millisecond})
+	if err != nil {
+		c.Inconclusive("session: " + err.Error())
+		close(resume)
+		return
+	}
+	t := tmpl{tid: ep.NewTemplateID(), elems: []regtable.Elem{lib.CustomElems[11], lib.CustomElems[8]}}
+	ts, _ := lib.TemplateSet(t.tid, t.elems, 0)
+	var want [][]byte
+	if _, err := ep.SendSet(ts); err != nil {
+		c.Violation(k, "send-error", err.Error(), nil)
+		close(resume)
+		ep.CloseConnToCollector()
+		return
+	}
+	want = append(want, refipfix.EncodeTemplateRecord(t.tid, gen.Fields(t.elems)))
+	var progress atomic.Int64
+	stopMon := make(chan struct{})
+	go func() { // start draining once the sender has been stuck for 300 ms
+		last, since := int64(-1), time.Now()
+		for {
+			select {
+			case <-stopMon:
+				close(resume)
+				return
+			default:
+			}
+			if p := progress.Load(); p != last {
+				last, since = p, time.Now()
+			} else if time.Since(since) > 300*time.Millisecond {
+				close(resume)
+				return
+			}
+			time.Sleep(5 * time.Millisecond)
+		}
+	}()
+	nsend := 600 + r.IntN(600)
+	pad := gen.Bytes(r, 12000)
+	var sendErr error
+	failedAt := -1
+	for i := 1; i <= nsend; i++ {
+		rec := [][]byte{refipfix.PU(4, uint64(i)), pad[:8000+r.IntN(4000)]}
+		set := entities.NewSet(false)
+		if err := lib.FillDataSet(set, t.tid, t.elems, [][][]byte{rec}, nil); err != nil {
+			panic(err)
+		}
+		if _, err := ep.SendSet(set); err != nil {
+			sendErr, failedAt = err, i
+			break
+		}
+		body, _ := refipfix.EncodeRecord(gen.Widths(t.elems), rec)
+		want = append(want, body)
+		progress.Add(1)
+	}
+	select {
+	case <-resume:
+	default:
+		close(stopMon)
+	}
+	ep.CloseConnToCollector()
+	var cp capture
+	select {
+	case cp = <-capCh:
+	case <-time.After(30 * time.Second):
+		c.Inconclusive("backpressure: the peer did not finish reading")
+		return
+	}
+	blocked := false
+	select {
+	case <-stopMon:
+	default:
+		blocked = true // the monitor resumed the reader because the sender was stuck: back-pressure was reached
+	}
+	if sendErr != nil {
+		c.Violation(k, "send-failed-under-backpressure", fmt.Sprintf("SendSet %d of %d failed with %q although the collector never closed the connection (it was only slow to read)", failedAt, nsend, sendErr), nil)
+		return
+	}
+	msgs, tail := refipfix.Frame(cp.data)
+	if len(tail) != 0 || len(msgs) != len(want) {
+		c.Violation(k, "stream-corrupt-under-backpressure", fmt.Sprintf("%d whole messages + %d stray bytes at the peer for %d successful sends", len(msgs), len(tail), len(want)), nil)
+		return
+	}
+	for i, m := range msgs {
+		pm, err := refipfix.ParseMessage(m)
+		if err != nil || !bytes.Equal(pm.Body, want[i]) {
+			c.Violation(k, "stream-corrupt-under-backpressure", fmt.Sprintf("message %d at the peer is not the application's %d-th send (%v)", i, i, err), nil)
+			return
+		}
+	}
+	c.Add("backpressure_sessions", 1)
+	if blocked {
+		c.Add("backpressure_sessions_where_the_sender_blocked", 1)
+		c.Nontrivial(hx.H64("backpressure", k, nsend))
+	}
+	c.Add("messages_at_peer_checked", int64(len(msgs)))
+	c.Sample(8, map[string]any{"kind": "backpressure", "sends": nsend, "bytes_at_peer": len(cp.data), "sender_blocked_until_peer_resumed": blocked, "check_conn_interval_ms": 20})
 }
 
 func peerCloseSession(c *hx.Ctx, k int, r *rand.Rand) {
